@@ -15,7 +15,9 @@ import common
 
 PROP = "C18"
 SIZES = [0, 1, 1023, 1024, 1025, 2048, 4096, 100000]
-NAMES = ["a", "b", "file.txt", "with space", "ünï", ".hidden", "x.c", "UPPER", "d1", "d2", "sub", "😀", "a.b.c", "-dash"]
+NAMES = ["a", "b", "file.txt", "with space", "ünï", ".hidden", "x.c", "UPPER", "d1", "d2", "sub", "😀", "a.b.c", "-dash",
+         # a backslash, a colon, a quote, a glob character are ordinary characters of a POSIX file name
+         "win\\style.txt", "a\\b", "C:", "it's", "st*r", "[x]", "tab\there", "semi;colon", "q\"uote"]
 
 
 def content(rng, size):
